@@ -681,10 +681,24 @@ class Gen:
         lo = a[1] if a[0] == 'int' else 0
         b = r.choice([('int', lo + r.randint(0, 4)), ('int', lo + r.randint(0, 4)), self.int_e(scopes, 2, counters)])
         incl = r.random() < 0.5
-        step = r.choice([None, None, ('int', 1), ('int', 2), ('int', 3)])
+        step = r.choice([None, None, ('int', 1), ('int', 2), ('int', 3), 'var', 'compound', 'compound'])
+        stv = None
+        if step in ('var', 'compound'):
+            # a step held in a variable / computed by a compound expression (evaluated after every iteration);
+            # the variable is never written by the body
+            stv = self.fresh('st')
+            scopes[-1][stv] = 'int'
+            pre.append(('assign', stv, ('int', r.choice([1, 2]))))
+            if step == 'var':
+                step = ('var', stv)
+            else:
+                step = r.choice([('bin', '+', ('var', stv), ('int', 1)), ('bin', '*', ('var', stv), ('int', 2)),
+                                 ('bin', '+', ('int', 1), ('bin', '*', ('var', stv), ('int', 1))),
+                                 ('bin', '-', ('bin', '+', ('var', stv), ('int', 3)), ('int', 1))])
         ck = r.choice(['anon', 'named', 'named', 'collide'])
         cname = None
-        inner = counters
+        inner = counters + ((stv,) if stv else ())
+        counters = inner
         if ck == 'named':
             cname = self.fresh('i')
         elif ck == 'collide':
@@ -700,7 +714,7 @@ class Gen:
                 cname = self.fresh('c')
                 scopes[-1][cname] = 'int'
                 pre.append(('assign', cname, ('int', r.randint(5, 9))))
-        self.shape.append('from:%s%s%s@%d' % (ck, 'T' if incl else 't', step[1] if step else '', depth))
+        self.shape.append('from:%s%s%s@%d' % (ck, 'T' if incl else 't', (step[1] if step[0] == 'int' else step[0]) if step else '', depth))
         if ck == 'named':
             scopes.append({cname: 'int'})     # visible in the body only
         if cname:
@@ -820,8 +834,26 @@ def systematic_programs(max_level=2):
     def P(tag):
         return ('print', ('str', tag))
 
-    def wrap(kind, body, tag):
-        """Returns list of statements implementing construct `kind` around `body`."""
+    def wrap(kind, body, tag, tail=False):
+        """Returns list of statements implementing construct `kind` around `body`.  tail=True: `body` is the
+        last thing in the construct's block (no trailing statement), so that a nested construct ending in
+        break / continue / return is in tail position at every level."""
+        if tail:
+            full = wrap(kind, body, tag)
+            def strip(stmts):
+                # drop the trailing marker print that wrap() puts after the body of loops
+                if stmts and stmts[-1][0] == 'print' and stmts[-1][1][0] == 'str' and stmts[-1][1][1] == tag + "x":
+                    return stmts[:-1]
+                return stmts
+            out = []
+            for st in full:
+                if st[0] == 'while':
+                    out.append(('while', st[1], strip(st[2])))
+                elif st[0] == 'from':
+                    out.append(st[:7] + (strip(st[7]),))
+                else:
+                    out.append(st)
+            return out
         if kind == 'if':
             return [('if', [(T, [P(tag + "t")] + body)], None)]
         if kind == 'ifelse':
@@ -872,20 +904,29 @@ def systematic_programs(max_level=2):
             for lvl, kind in enumerate(reversed(chain)):
                 body = wrap(kind, body, "k%d" % (len(chain) - lvl))
             emit([P("begin")] + body + [P("end")], ["sys"] + list(chain) + [ex])
-        # the same nest inside a function, leaving by `return` from the innermost level
-        ctr[0] = 0
-        inner = [P("in"), ('if', [(T, [P("ret"), ('return', ('int', 7))])], None), P("after")]
-        body = inner
-        for lvl, kind in enumerate(reversed(chain)):
-            body = wrap(kind, body, "k%d" % (len(chain) - lvl))
-        f = fresh('f')
-        prog = [P("begin"), ('fn', f, [], 'int', [P("fn")] + body + [P("fell"), ('return', ('int', 1))]),
-                ('print', ('call', f, [])), ('print', ('call', f, [])), P("end")]
-        emit(prog, ["sys-fn"] + list(chain) + ["return"])
+        # the same nest inside a function, leaving by `return` from the innermost level; once with statements
+        # after the exit at every level and once with the exit in tail position at every level
+        for tail in (False, True):
+            ctr[0] = 0
+            inner = [P("in"), ('if', [(T, [P("ret"), ('return', ('int', 7))])], None)] + ([] if tail else [P("after")])
+            body = inner
+            for lvl, kind in enumerate(reversed(chain)):
+                body = wrap(kind, body, "k%d" % (len(chain) - lvl), tail)
+            f = fresh('f')
+            prog = [P("begin"), ('fn', f, [], 'int', [P("fn")] + body + [P("fell"), ('return', ('int', 1))]),
+                    ('print', ('call', f, [])), ('print', ('call', f, [])), P("end")]
+            emit(prog, ["sys-fn"] + list(chain) + ["return-tail" if tail else "return"])
+        if in_loop:
+            for ex in ('break', 'continue'):
+                ctr[0] = 0
+                body = [P("in"), ('if', [(T, [P("ex"), (ex,)])], None)]
+                for lvl, kind in enumerate(reversed(chain)):
+                    body = wrap(kind, body, "k%d" % (len(chain) - lvl), True)
+                emit([P("begin")] + body + [P("end")], ["sys"] + list(chain) + [ex + "-tail"])
 
     # from-loop matrix
     for incl in (False, True):
-        for step in (None, 1, 2, 3):
+        for step in (None, 1, 2, 3, 'var', 'compound'):
             for ck in ('anon', 'named', 'collide', 'collide_nested'):
                 for (a, b) in ((0, 0), (0, 1), (0, 3), (1, 4), (2, 1), (-1, 2)):
                     for ex in ('none', 'break', 'continue'):
@@ -905,7 +946,15 @@ def systematic_programs(max_level=2):
                             body.append(('print', ('var', cname)))
                         if ex != 'none':
                             body += [('if', [(T, [P("ex"), (ex,)])], None), P("after")]
-                        loop = ('from', ('int', a), ('int', b), incl, ('int', step) if step else None, kind, cname, body)
+                        if step == 'var':
+                            pre = pre + [('assign', 'st1', ('int', 2))]
+                            step_e = ('var', 'st1')
+                        elif step == 'compound':
+                            pre = pre + [('assign', 'st1', ('int', 1))]
+                            step_e = ('bin', '+', ('var', 'st1'), ('int', 1))
+                        else:
+                            step_e = ('int', step) if step else None
+                        loop = ('from', ('int', a), ('int', b), incl, step_e, kind, cname, body)
                         if ck == 'collide_nested':
                             stmts = pre + [('if', [(('bool', True), [P("blk"), loop, ('print', ('var', 'c1'))])], None)] + post
                         else:
